@@ -144,6 +144,13 @@ func runC18(p *Program, r *Result) {
 				continue
 			}
 			parsedOK := parse.errIs(atoms, true)
+			if ph, isPhi := parse.val.(*ssa.Phi); parsedOK && isPhi {
+				// the result of a helper spliced in: on this path it is the helper's "nothing
+				// parsed" exit (nil key, nil error), not a success of the parser
+				if isNilConst(stripConv(pa.Resolve(ph))) {
+					parsedOK = false
+				}
+			}
 			if parsedOK {
 				// the parser's result must be appended on this path
 				appended := false
